@@ -803,8 +803,8 @@ func (x *rsExec) doPair(step int, name string, key []byte, del bool) {
 		if _, err := pair.NewPairingController(database).Handle(in); err != nil {
 			panic(err)
 		}
-		if x.t != nil { // what endpoint.Pairing does after the controller: emit to the transport's listener
-			x.t.Handle(ev)
+		if x.t != nil { // what endpoint.Pairing does after the controller: emit through the emitter the transport gave it
+			hc.VerifEmitter(x.t).Emit(ev)
 		}
 	})
 	if pan {
